@@ -158,7 +158,7 @@ class FsRun:
                 lo, hi = cc.bound[0] + cc.B - 3, cc.bound[-1] + cc.B + 3
                 r = rd.read(lo, hi, "ch")
                 blocks, ds, fs, bad = [], [], [], 0
-                for k, arr in r.items():
+                for k, arr in sorted(r.items(), key=lambda kv: int(kv[0])):
                     k = int(k)
                     blocks.append([k - cc.B, k - cc.B + len(arr) - 1])
                     kinds = cc.vals.classify(arr, k)
